@@ -37,7 +37,7 @@ package cluster
 //                             not the store's content
 //   C19.snapshot-mutated      a snapshot changed after it had been delivered
 //   C19.channel-closed        the channel was closed while the syncer was open
-//   C19.livelock              the run burnt its step budget (e.g. hot pull loop)
+//   C19.livelock              the run burnt its step budget
 //
 // Oracle leniency (statement silent / two readings):
 //   * the implicit first snapshot is "empty": a syncer whose target is empty may
@@ -226,6 +226,9 @@ func c19Gen(rng *sim.Rand, tier string) interface{} {
 			s.LagsMs = []int64{0, 0, 13, 0, 501}
 		case 2:
 			s.LagsMs = []int64{701, 2903}
+			if rng.Bool(0.5) {
+				s.LagsMs = []int64{2903, 2903, 9001}
+			}
 		default:
 			s.LagsMs = []int64{0, 97}
 		}
@@ -240,9 +243,24 @@ func c19Gen(rng *sim.Rand, tier string) interface{} {
 		for w := 0; w < nw; w++ {
 			wr := c19Writer{}
 			burst := rng.Intn(3)
+			nops := rng.Range(1, 8)
+			steady := rng.Bool(0.15)
+			if steady {
+				// a steady stream of changes of the watched keys, one pull each:
+				// this is what fills the 10-slot channel of a lagging consumer
+				nops = rng.Range(11, 18)
+			}
 			var total int64
-			for i, n := 0, rng.Range(1, 8); i < n; i++ {
+			for i, n := 0, nops; i < n; i++ {
 				op := c19GenOp(rng, burst)
+				if steady {
+					op.GapUs = int64(rng.Pick(1307, 5003, 52_101))
+					if rng.Bool(0.8) {
+						op.Kind, op.KVs = "put", nil
+						op.Key = rng.PickStr("/p/a", "/p/a", "/p/b")
+						op.Val = []string{"v1", "v2", "v3"}[i%3]
+					}
+				}
 				total += op.GapUs
 				wr.Ops = append(wr.Ops, op)
 			}
@@ -313,6 +331,9 @@ type c19Env struct {
 	pullErrors    int
 	rangeCalls    int
 	nonce         int
+	rangeAt       []time.Duration
+	busy          bool
+	lastHalt      time.Duration
 }
 
 // sleep lets d pass plus a few nanoseconds that are different for every call:
@@ -327,6 +348,9 @@ const c19Addr = "etcd:2379"
 
 // c19Rounds: see the quiet-period loop in c19Exec.
 const c19Rounds = 30
+
+// c19BusyRanges: see the busy-loop detector in unaryHook.
+const c19BusyRanges = 150
 
 // c19DbgConn / c19DbgLis log every Write (development aid, C19_DEBUG_IO=1).
 type c19DbgConn struct {
@@ -403,6 +427,34 @@ func (e *c19Env) unaryHook(ctx context.Context, ph zzsimetcd.Phase, method strin
 		}
 		if method == "Range" {
 			e.rangeCalls++
+			// busy-loop detector: more than c19BusyRanges Range RPCs within one
+			// second of virtual time (legitimate: 1/pullInterval + one per watch
+			// response + clientv3 retries every 25 ms)
+			now := r.Now()
+			e.rangeAt = append(e.rangeAt, now)
+			for len(e.rangeAt) > 0 && now-e.rangeAt[0] > time.Second {
+				e.rangeAt = e.rangeAt[1:]
+			}
+			if len(e.rangeAt) > c19BusyRanges && !e.busy {
+				// OBSERVATION, not a violation of the C19 statement (snapshots stay
+				// correct and convergence holds): syncer.run pulls back-to-back. It
+				// happens when clientv3 closed the watch channel without a Canceled
+				// response (fatal stream error while the subscriber was busy for more
+				// than 250 ms): `resp := <-watchChan` then yields zero values for ever.
+				// From here on every Range costs 50 ms of virtual time, so that the run
+				// can go on (and all rules are still judged) instead of spinning in
+				// zero time.
+				e.busy = true
+				r.Probe("c19.busy_pull_loop_observed")
+				r.Eventf("OBSERVATION busy pull loop: %d Range RPCs within one virtual second at %v (%d watch streams open, last fatal watch stream error at %v); Range is throttled from now on",
+					len(e.rangeAt), now, e.srv.OpenWatchStreams(), e.lastHalt)
+			}
+			if e.busy {
+				// let virtual time pass, otherwise the spinning caller keeps the
+				// clock (and the end of the run) from advancing
+				time.Sleep(50 * time.Millisecond)
+				r.Yield("etcd.wake")
+			}
 			if e.rangeSlowLeft > 0 {
 				e.rangeSlowLeft--
 				r.Fault("etcd.range_slow")
@@ -960,6 +1012,7 @@ func c19Exec(r *sim.Run, sci interface{}) {
 					k := env.srv.BreakWatchStreams(status.Error(codes.Unknown, "simetcd: fatal watch stream error"))
 					if k > 0 {
 						r.Fault("etcd.watch_stream_fatal")
+						env.lastHalt = r.Now()
 					}
 					r.Eventf("fault halt (%d streams)", k)
 				case "stop":
